@@ -100,6 +100,7 @@ func (e *Engine) VerifyUnit(u *Unit) (res *UnitResult) {
 		}
 	}()
 	closures = map[string]*closureInfo{}
+	nameDefs = map[string]*Term{}
 	keyTerms = map[string][]*Term{}
 	fn := u.Fn
 	fx := &FnExec{e: e, c: c, fn: fn, con: u.Con, beh: effective(u.Con, u.Beh), behName: behName(u.Beh),
@@ -110,15 +111,26 @@ func (e *Engine) VerifyUnit(u *Unit) (res *UnitResult) {
 	fx.entryAlloc = alloc0
 	st := &State{guard: True, cells: map[*ssa.Alloc]*Term{}, heap: map[string]*Term{"alloc": alloc0}}
 	fx.params = map[string]specVal{}
+	nslice := 0
+	for _, p := range fn.Params {
+		if _, ok := p.Type().Underlying().(*types.Slice); ok {
+			nslice++
+		}
+	}
 	for _, p := range fn.Params {
 		v := c.Const("p_"+p.Name(), e.sortOf(p.Type()))
+		if isStringT(p.Type()) {
+			// explicit constructor keeps selectors syntactically simple
+			v = MkStr(c.Const("p_"+p.Name()+"_arr", SArrI), c.Const("p_"+p.Name()+"_len", SInt))
+		}
+		if _, ok := p.Type().Underlying().(*types.Slice); ok && nslice == 1 {
+			// a single slice parameter cannot partially overlap another one: its
+			// window may be re-based to offset 0 without loss of generality
+			v = MkSlc(c.Const("p_"+p.Name()+"_base", SInt), IntLit(0), c.Const("p_"+p.Name()+"_len", SInt), c.Const("p_"+p.Name()+"_cap", SInt))
+		}
 		fx.vals[p] = v
 		fx.params[p.Name()] = specVal{v, p.Type()}
 		fx.assumeType(st, v, p.Type())
-		if isStringT(p.Type()) {
-			// representation choice, without loss of generality for a fresh symbolic string
-			c.Assume(Eq(StrOff(v), IntLit(0)))
-		}
 	}
 	for _, fv := range fn.FreeVars {
 		v := c.Const("fv_"+fv.Name(), SInt)
@@ -132,11 +144,11 @@ func (e *Engine) VerifyUnit(u *Unit) (res *UnitResult) {
 			panic(specErr(err.Error()))
 		}
 		v := c.Const("g_"+g.Name, e.sortOf(t))
+		if isStringT(t) {
+			v = MkStr(c.Const("g_"+g.Name+"_arr", SArrI), c.Const("g_"+g.Name+"_len", SInt))
+		}
 		fx.ghosts[g.Name] = specVal{v, t}
 		fx.assumeType(st, v, t)
-		if isStringT(t) {
-			c.Assume(Eq(StrOff(v), IntLit(0)))
-		}
 	}
 	fx.entry = st
 	env := fx.specEnvEntry()
@@ -148,8 +160,11 @@ func (e *Engine) VerifyUnit(u *Unit) (res *UnitResult) {
 	// postconditions at each return
 	for i, r := range fx.rets {
 		renv := fx.specEnvReturn(r)
+		var prev []*Term
 		for k, en := range fx.beh.Ensures {
-			fx.oblig(r.st, "ensures", fmt.Sprintf("%d@ret%d", k, i), r.pos, renv.boolExpr(en.Expr))
+			t := renv.boolExpr(en.Expr)
+			fx.obligN(r.st, "ensures", fmt.Sprintf("%d@ret%d", k, i), r.pos, Implies(And(prev...), t), r.nassume)
+			prev = append(prev, t)
 		}
 	}
 	if len(fx.rets) > 0 {
